@@ -72,6 +72,10 @@ def run(groups=None, ir=None, quiet=False):
     # 2. profileURI
     for a, b in ([('alice', 'alice'), ('alice', 'bob'), ('', ''), ('a', ''), ('', '/x')] if want('strings') else []):
         cases.append(('cmd/keymasterd', f'profileURI({gostr(a)}, {gostr(b)})', lambda a=a, b=b: run1(ir, M + '.profileURI', lambda ex, st: [SV(a), SV(b)], lambda ex, p, r: conc(r[0]))))
+    # 2b. fmt.Sprintf with %s (the LDAP bind pattern)
+    LD = KM + '/lib/pwauth/ldap'
+    for u, pat_ in ([('alice', 'uid=%s,ou=people,dc=example,dc=com'), ('', 'cn=%s'), ('a,b', '%s'), ('x', 'no-verb'), ('bob', '%s@%s')] if want('strings') else []):
+        cases.append(('lib/pwauth/ldap', f'convertToBindDN({gostr(u)}, {gostr(pat_)})', lambda u=u, pat_=pat_: run1(ir, LD + '.convertToBindDN', lambda ex, st: [SV(u), SV(pat_)], lambda ex, p, r: conc(r[0]))))
     # 3. prependGroups: loop + append over a slice of strings
     for groups_, pre in ([([], 'p-'), (['a'], ''), (['a', 'b', 'c'], 'p-'), (['x'], 'long-prefix/'), (['', 'y'], '-')] if want('slices') else []):
         goexpr = f'prependGroups([]string{{{", ".join(gostr(g) for g in groups_)}}}, {gostr(pre)})'
